@@ -77,7 +77,8 @@ pub enum FnKind {
 pub enum Member {
   Prop { name: String, access: Access, is_static: bool, readonly: bool, ty: Option<String>, init: Option<Init> },
   Method { name: String, access: Access, is_static: bool, kind: FnKind, f: Fn },
-  Ctor { access: Access, params: Vec<(Param, Option<(Access, bool)>)>, calls_super: bool },
+  /// `overloads`: overload signatures written before the implementation
+  Ctor { access: Access, params: Vec<(Param, Option<(Access, bool)>)>, calls_super: bool, overloads: usize },
   EsPrivate(String),
   StaticBlock,
   /// auto-accessor
@@ -272,8 +273,9 @@ pub fn render_decl(d: &Decl) -> String {
             r_sig(f),
             r_body(f, &d.body_refs)
           )),
-          Member::Ctor { access, params, calls_super } => s.push_str(&format!(
-            "  {}constructor({}) {{ {}console.log(\"ctor\"); }}\n",
+          Member::Ctor { access, params, calls_super, overloads } => s.push_str(&format!(
+            "{}  {}constructor({}) {{ {}console.log(\"ctor\"); }}\n",
+            (0..*overloads).map(|k| format!("  {}constructor({});\n", r_access(*access), ctor_overload_params(k).iter().map(r_param).collect::<Vec<_>>().join(", "))).collect::<String>(),
             r_access(*access),
             params
               .iter()
@@ -379,6 +381,11 @@ pub fn expr_sexp(e: &Expr) -> String {
   }
 }
 
+/// the parameters of the k-th overload signature of a constructor
+pub fn ctor_overload_params(k: usize) -> Vec<Param> {
+  (0..=k).map(|i| Param { name: format!("o{}", i), opt: false, rest: false, ty: Some(if i % 2 == 0 { "number".into() } else { "string".into() }), dflt: None }).collect()
+}
+
 pub fn param_sexp(p: &Param) -> String {
   format!("(p {} {} {} {} {})", q(&p.name), p.opt as u8, p.rest as u8, opt_s(&p.ty), p.dflt.as_ref().map(expr_sexp).unwrap_or("-".into()))
 }
@@ -429,15 +436,19 @@ pub fn member_sexp(m: &Member) -> String {
       match kind { FnKind::DeclLike => "decl", FnKind::Getter => "getter", FnKind::Setter => "setter" },
       fn_sexp(f)
     ),
-    Member::Ctor { access, params, calls_super } => format!(
-      "(ctor {} ({}) 1 {})",
+    Member::Ctor { access, params, calls_super, overloads } => format!(
+      "{}(ctor {} ({}) 1 {} {})",
+      (0..*overloads)
+        .map(|k| format!("(ctor {} ({}) 0 0 0) ", access_s(*access), ctor_overload_params(k).iter().map(|p| format!("({} -)", param_sexp(p))).collect::<Vec<_>>().join(" ")))
+        .collect::<String>(),
       access_s(*access),
       params
         .iter()
         .map(|(p, prop)| format!("({} {})", param_sexp(p), match prop { Some((a, ro)) => format!("({} {})", access_s(*a), *ro as u8), None => "-".into() }))
         .collect::<Vec<_>>()
         .join(" "),
-      *calls_super as u8
+      *calls_super as u8,
+      (*overloads > 0) as u8
     ),
     Member::EsPrivate(_) => "esprivate".into(),
     Member::StaticBlock => "staticblock".into(),
@@ -668,6 +679,7 @@ pub fn gen_decl(rng: &mut Rng, cx: &GenCtx, name: String, exported: bool, p_bad:
             let mut params = vec![];
             let k = rng.below(3);
             let access = if rng.chance(1, 8) { Access::Priv } else { Access::Pub };
+            let overloads = if rng.chance(1, 4) { 1 + rng.below(2) } else { 0 };
             for i in 0..k {
               let mut r = vec![];
               let prop = if rng.chance(1, 2) { Some((*pick(rng, &[Access::Pub, Access::Priv, Access::Prot]), rng.chance(1, 3))) } else { None };
@@ -681,14 +693,15 @@ pub fn gen_decl(rng: &mut Rng, cx: &GenCtx, name: String, exported: bool, p_bad:
               };
               let p = if p.ty.is_none() && p.dflt.is_none() && !rng.chance(p_bad, 100) { Param { ty: Some("number".into()), ..p } } else { p };
               let private_prop = matches!(prop, Some((Access::Priv, _)));
-              if access == Access::Priv || private_prop {
+              // behind overload signatures only the parameter properties of the implementation are public
+              if access == Access::Priv || private_prop || (overloads > 0 && prop.is_none()) {
                 body_refs.extend(r);
               } else {
                 refs.extend(r);
               }
               params.push((p, prop));
             }
-            members.push(Member::Ctor { access, params, calls_super: false });
+            members.push(Member::Ctor { access, params, calls_super: false, overloads });
           }
           7 => members.push(Member::EsPrivate(format!("h{}", j))),
           8 => members.push(Member::StaticBlock),
